@@ -46,6 +46,11 @@ class _State:
         if not isinstance(b, bool):
             self.pc.append(b)
 
+    def clone(self):
+        c = _State(self.ctx)
+        c.pc, c.n = list(self.pc), self.n
+        return c
+
 
 class _Ex:
     def __init__(self):
@@ -199,7 +204,54 @@ def run(case):
     sr_ = rnd(rng, (d(), bas.shape[1] if k % 3 else bas.shape[1] + 1), False)
     obs.append(compare('einsum(ij,kj,lj->iklj)', case, lambda x, y, z: np.einsum('ij,kj,lj->iklj', x, y, z),
                        lambda ex, st, x, y, z: npmodel.einsum(ex, st, 'ij,kj,lj->iklj', [x, y, z], 0), [sl_, bas, sr_], check_alias=False))
+    # reshape to a shape list / transpose by an axes list, both handled as lists of symbolic length (TT.full)
+    dd = d(1, 3)
+    rdm, cdm = [d(1, 3) for _ in range(dd)], [d(1, 3) for _ in range(dd)]
+    flat = rnd(rng, (int(np.prod(rdm)) * int(np.prod(cdm)), 1), cplx)
+    pl = [None] * 2 * dd
+    pl[::2] = rdm
+    pl[1::2] = cdm
+    if k % 7 == 0:
+        pl[0] += 1          # wrong size: both must reject
+    ql = [2 * i for i in range(dd)] + [1 + 2 * i for i in range(dd)]
+    if k % 5 == 0 and dd > 1:
+        ql[0] = ql[1]       # repeated axis: both must reject
+    ex, st = _Ex(), None
+    st = _State(ex.ctx)
+    try:
+        real = flat.reshape(pl).transpose(ql)
+        real_ok = True
+    except Exception as e_:     # noqa
+        real, real_ok = e_, False
+    mk = lambda L: SList(st.alloc(), z3.IntVal(len(L)), fn=lambda j, L=L: _pick(L, j), kind='int')      # noqa
+    try:
+        mod = calls.reshape_to_symbolic_rank(ex, st, absval(flat, 1), mk(pl), 0)
+        mod = calls.transpose_symbolic_rank(ex, st, mod, mk(ql), 0, True)
+        mod_ok = not ex.ctx.failed
+    except Unsupported as e_:
+        mod, mod_ok = None, None
+    nm = 'C06/A-numpy/reshape(list).transpose(list)'
+    if mod_ok is None:
+        obs.append(Ob(nm, 'T3', OK, sig='reshape-transpose-n', detail='outside the modelled subset', case=case, nontrivial=False))
+    elif real_ok != mod_ok:
+        obs.append(Ob(nm, 'T3', FAIL, sig='reshape-transpose-n', case=case, detail='NumPy %s, model %s (%s)' % ('accepts' if real_ok else 'raises %r' % real, 'accepts' if mod_ok else 'rejects', ex.ctx.failed)))
+    elif not real_ok:
+        obs.append(Ob(nm, 'T3', OK, sig='reshape-transpose-n', detail='both reject', case=case))
+    else:
+        shp = [conc(mod.shape.fn(z3.IntVal(j)), st) for j in range(2 * dd)]
+        bad = [] if (shp == list(real.shape) and conc(mod.ndim, st) == real.ndim and conc(mod.size, st) == real.size) else ['shape %s vs model %s' % (list(real.shape), shp)]
+        obs.append(Ob(nm, 'T3', FAIL if bad else OK, sig='reshape-transpose-n', detail='; '.join(bad), case=case))
     return obs
+
+
+def _pick(L, j):
+    j = z3.simplify(zi(j))
+    if z3.is_int_value(j):
+        return z3.IntVal(L[j.as_long()]) if 0 <= j.as_long() < len(L) else z3.IntVal(0)
+    r = z3.IntVal(L[-1])
+    for q in range(len(L) - 2, -1, -1):
+        r = z3.If(j == q, z3.IntVal(L[q]), r)
+    return r
 
 
 def tasks(tier, seed):
